@@ -9,7 +9,7 @@ structure Inv (s : RecSt) : Prop where
   /-- nothing recorded is lost or duplicated: file, then the writer's batch, then the hand-off queue -/
   conserve    : ∀ d, s.file d ++ (s.loc d).flatten ++ (s.shared d).flatten = s.recorded d
   split       : ∀ d, s.recorded d = s.pre d ++ s.late d
-  idle_loc    : s.pc ≠ .flushing → ∀ d, s.loc d = []
+  idle_loc    : (s.pc = .idle ∨ s.pc = .done) → ∀ d, s.loc d = []
   quit_sd     : s.quit = true → s.shutdown = true
   late_sh     : s.quit = true → s.pc ≠ .idle → ∀ d, ∃ x, s.late d = x ++ (s.shared d).flatten
   noshut_late : s.shutdown = false → ∀ d, s.late d = []
@@ -76,7 +76,7 @@ theorem inv_step (s s' : RecSt) (a : RecAct) (h : Inv s) (hs : recStep s a = som
     split at hs
     · rename_i hen
       cases hs
-      have hloc := h.idle_loc (by rw [hen.1]; decide)
+      have hloc := h.idle_loc (Or.inl hen.1)
       refine ⟨?_, h.split, ?_, ?_, ?_, h.noshut_late, ?_⟩
       · intro d
         have := h.conserve d
@@ -84,7 +84,7 @@ theorem inv_step (s s' : RecSt) (a : RecAct) (h : Inv s) (hs : recStep s a = som
         show s.file d ++ (s.shared d).flatten ++ (s.loc d).flatten = s.recorded d
         rw [hloc d]
         simpa using this
-      · intro hp; exact absurd rfl hp
+      · intro hp; rcases hp with hp | hp <;> cases hp
       · intro hq; exact hq
       · intro _ _ d
         refine ⟨s.late d, ?_⟩
@@ -109,6 +109,16 @@ theorem inv_step (s s' : RecSt) (a : RecAct) (h : Inv s) (hs : recStep s a = som
         · exact hq
         · simp [hq] at hp
     · cases hs
+  | crash =>
+    simp only [recStep] at hs
+    split at hs
+    · rename_i hpc
+      cases hs
+      refine ⟨h.conserve, h.split, ?_, h.quit_sd, ?_, h.noshut_late, ?_⟩
+      · intro hp; rcases hp with hp | hp <;> cases hp
+      · intro hq _ d; exact h.late_sh hq (by rw [hpc]; decide) d
+      · intro hp; cases hp
+    · cases hs
 
 theorem inv_reach {s : RecSt} (h : RecReach s) : Inv s := by
   induction h with
@@ -116,11 +126,12 @@ theorem inv_reach {s : RecSt} (h : RecReach s) : Inv s := by
   | step a _ hs ih => exact inv_step _ _ a ih hs
 
 /-- the writer's own actions after a shutdown request lead to `done` in at most three steps -/
-theorem writer_finishes (s : RecSt) (hsd : s.shutdown = true) (hpc : s.pc ≠ .done) :
+theorem writer_finishes (s : RecSt) (hsd : s.shutdown = true) (hpc : s.pc ≠ .done) (hpf : s.pc ≠ .failed) :
     ∃ acts : List RecAct, acts.length ≤ 3 ∧ (∀ a ∈ acts, a = .swap ∨ a = .flush) ∧
       (recRun s acts).map (·.pc) = some .done := by
   cases hp : s.pc with
   | done => exact absurd hp hpc
+  | failed => exact absurd hp hpf
   | idle =>
     refine ⟨[.swap, .flush], by simp, by simp, ?_⟩
     simp [recRun, recStep, hp, hsd]
@@ -148,7 +159,7 @@ theorem upd_set (a b : Attrs) (k v : Nat) : (a.upd b).set k v = a.upd (b.set k v
 
 structure AInv (s : RecSt) : Prop where
   eff       : ∀ d, effAttrs s d = s.want d
-  idle_new  : s.pc ≠ .flushing → ∀ d, s.newA d = none
+  idle_new  : (s.pc = .idle ∨ s.pc = .done) → ∀ d, s.newA d = none
   pend_file : ∀ d, s.pendA d ≠ none → s.file d = []
 
 theorem ainv_init : AInv RecSt.init := by
@@ -185,8 +196,8 @@ theorem ainv_step (s s' : RecSt) (a : RecAct) (h : AInv s) (hs : recStep s a = s
     split at hs
     · rename_i hen
       cases hs
-      have hn := h.idle_new (by rw [hen.1]; decide)
-      refine ⟨?_, fun hp => absurd rfl hp, h.pend_file⟩
+      have hn := h.idle_new (Or.inl hen.1)
+      refine ⟨?_, (fun hp => by rcases hp with hp | hp <;> cases hp), h.pend_file⟩
       intro d
       have := h.eff d
       simp only [effAttrs, hn d, Option.getD_none, upd_empty] at this ⊢
@@ -241,6 +252,12 @@ theorem ainv_step (s s' : RecSt) (a : RecAct) (h : AInv s) (hs : recStep s a = s
                 by_cases hh : s.file d ++ (s.loc d).flatten = []
                 · exact hh
                 · exact absurd hh hex
+    · cases hs
+  | crash =>
+    simp only [recStep] at hs
+    split at hs
+    · cases hs
+      exact ⟨h.eff, (fun hp => by rcases hp with hp | hp <;> cases hp), h.pend_file⟩
     · cases hs
 
 theorem ainv_reach {s : RecSt} (h : RecReach s) : AInv s := by
